@@ -97,6 +97,17 @@ def _norm_effect(e, ignore_kinds, ignore_calls, ordered=False, store_fields=None
         if store_fields is not None and not any(repr(w) in repr(tgt) for w in store_fields):
             return None
         from ..vn import as_term
+        from ..norm import Rat
+        # `x op= v` is `x = x op v`: one text for both spellings (the old value is the location's own atom)
+        if isinstance(how, str) and how.startswith("aug:") and isinstance(val, Rat):
+            cur = Rat.atom(tgt)
+            op = how[4:]
+            try:
+                nv = {"Add": lambda: cur + val, "Sub": lambda: cur - val, "Mult": lambda: cur * val, "Div": lambda: cur / val}.get(op)
+                if nv is not None:
+                    return ("store", tgt, "set", as_term(nv()))
+            except ZeroDivisionError:
+                pass
         return ("store", tgt, how, as_term(val) if val is not None else None)
     if e[0] == "call":
         if e[1] in ignore_calls:
